@@ -352,10 +352,97 @@ ENGINE_RULE = ("cases = every (patch, input) pair of /repo/testdata plus generat
                "dumped trees; results are compared as canonical trees. A case is non-trivial when at least one change matched; "
                "distinct = distinct (patch, source) text.")
 
-def engine_family(ctx, mode, checks, n_quick=400, n_thorough=16000, golden=True):
-    ctx.rule = ENGINE_RULE + f" Generator mode: {mode}. Projection compared for this property: {sorted(checks)}."
+def strip_parens(sx):
+    """canonical tree without ParenExpr nodes (go/printer adds and removes redundant parentheses)"""
+    if not isinstance(sx, list):
+        return sx
+    if sx[:2] == ["S", "ast.Object"]:
+        return ["N", "ast.Object"]      # resolved objects: generated identifiers have none, re-parsed text has them again
+    if len(sx) == 3 and sx[0] == "F" and isinstance(sx[2], list) and sx[2][:2] == ["S", "ast.ParenExpr"] and len(sx[2]) == 5:
+        return strip_parens(sx[2][3])
+    return [strip_parens(x) for x in sx]
+
+def cli_projection(ctx, results, what_checks, n):
+    """The same projection with the built binary as the implementation: a sample of the engine cases is run through
+    `gopatch --print-only`, the printed file is parsed into the canonical form (redundant parentheses and import
+    declarations aside) and compared with the Lean model's result.  The in-process engine stream calls
+    Change.Match/Replace itself; the loop around them in main.go is exercised only here."""
+    cand = [r for r in results if r[3]["status"] == "ok" and r[2]["status"] == "ok" and r[0].get("patches") and r[0].get("src")
+            and r[2].get("tree") is not None and r[3].get("tree") is not None]
+    rng = random.Random(ctx.seed + 99)
+    matched = [r for r in cand if any(t.startswith("k") for t in r[3]["trace"])]
+    unmatched = [r for r in cand if not any(t.startswith("k") for t in r[3]["trace"])]
+    multi = [r for r in matched if len(r[3]["trace"]) > 1]
+    rng.shuffle(matched); rng.shuffle(unmatched)
+    sample = (multi[: n // 3] + matched[: n - min(len(multi), n // 3) - n // 8] + unmatched[: n // 8])[:n]
+    if not sample:
+        return
+    # cases whose intermediate trees are not stable under print + re-parse are out of reach of a textual comparison
+    d = ctx.scratch("clip")
+    pth = os.path.join(d, "in.jsonl")
+    with open(pth, "w") as f:
+        for inp, *_ in sample:
+            f.write(json.dumps({"id": inp["id"], "patches": inp["patches"], "chain": inp["patches"], "src": inp["src"]}) + "\n")
+    r = run([ctx.harness, "stable", "-inputs", pth], timeout=600)
+    stable = r.stdout.split()
+    if len(stable) != len(sample):
+        stable = ["?"] * len(sample)
+    def one(k):
+        inp = sample[k][0]
+        root = os.path.join(d, f"c{k}")
+        os.makedirs(root)
+        pargs = []
+        for i, ptxt in enumerate(inp["patches"]):
+            with open(os.path.join(root, f"p{i}.patch"), "w") as f:
+                f.write(ptxt)
+            pargs += ["-p", f"p{i}.patch"]
+        with open(os.path.join(root, "a.go"), "w") as f:
+            f.write(inp["src"])
+        code, out, err = cl.gopatch(ctx.gopatch, root, pargs + ["--print-only", "-v", "a.go"])
+        text = out.decode("utf-8", "replace")
+        body = text[: text.rstrip("\n").rfind("\n") + 1] if "\n" in text.rstrip("\n") else ""
+        last = text.rstrip("\n").split("\n")[-1] if text.strip() else ""
+        with open(os.path.join(root, "out.go"), "w") as f:
+            f.write(body)
+        return code, last.endswith(": patched"), os.path.join(root, "out.go"), err.decode("utf-8", "replace")
+    with ThreadPoolExecutor(max_workers=16) as ex:
+        runs = list(ex.map(one, range(len(sample))))
+    canon = canon_files(ctx, [r[2] for r in runs])
+    tuples = []
+    for k, ((inp, orig, impl, model, same), (code, patched, outp, err)) in enumerate(zip(sample, runs)):
+        if stable[k] != "1":
+            ctx.count("cli_tie:unstable-under-print")
+            continue
+        if code != 0:
+            # the rewrite is rejected as text (C07) or the run failed for this file: not this projection's business
+            ctx.count("cli_tie:exit-nonzero")
+            continue
+        line = canon[k] if k < len(canon) else "ERR"
+        if line.startswith("ERR"):
+            ctx.count("cli_tie:output-unparseable")
+            continue
+        csx = parse_sx("(res x " + line + ")")
+        t = sx_field(csx[2:], "tree")
+        want_match = any(t_.startswith("k") for t_ in model["trace"])
+        cli = {"id": inp["id"], "status": "ok", "trace": model["trace"] if patched == want_match else (["k?"] if patched else ["n"]),
+               "touched": [], "pkg": sx_field(csx[2:], "pkg"), "imports": sx_field(csx[2:], "imports"),
+               "tree": strip_parens(t[0]) if t else None}
+        o2 = dict(orig, tree=strip_parens(orig["tree"]))
+        m2 = dict(model, tree=strip_parens(model["tree"]), missed="?", typed="?")
+        inp2 = dict(inp, id=str(inp.get("id")) + " (through the gopatch binary, --print-only)")
+        same2 = (cli["tree"] == m2["tree"] and cli["imports"] == m2.get("imports") and cli["pkg"] == m2.get("pkg") and patched == want_match)
+        ctx.count("cli_tie:" + ("same" if same2 else "differs"))
+        tuples.append((inp2, o2, cli, m2, same2))
+    engine_projection(ctx, tuples, set(what_checks) - {"converse"})
+
+def engine_family(ctx, mode, checks, n_quick=400, n_thorough=16000, golden=True, cli_n=(40, 1500)):
+    ctx.rule = ENGINE_RULE + (f" Generator mode: {mode}. Projection compared for this property: {sorted(checks)}. A sample of the cases "
+                              "is also run through the built binary (--print-only): the printed file, parsed back, is compared with "
+                              "the model's result under the same projection (cases whose intermediate trees are not stable under "
+                              "print + re-parse excluded).")
     res = engine_batches(ctx, mode, n_quick, n_thorough, golden)
     engine_projection(ctx, res, checks)
+    cli_projection(ctx, res, checks, cli_n[0] if ctx.tier == "quick" else cli_n[1])
     return res
 
 @signature("nested-elision-ambiguity")
@@ -374,9 +461,48 @@ def c01(ctx):
 def c02(ctx):
     engine_family(ctx, "c02", {"decisions", "where"})
 
+# '+' sides whose tokens must reach the output byte for byte: blanks at the end of the lines of a raw string, the marker
+# characters of the patch language inside literals, every spelling of a literal
+VERBATIM_PLUS = [
+    "printUsage(mvw, `Usage:  \n  tool [flags]\t\n\t`)",
+    "f(mvw, \"@@\", `@ name @`, \"# no comment\", `x # y`)",
+    "f(mvw, \"...\", `...`, \"a...\")",
+    "f(mvw, `first\n+plus\n-minus\n context`)",
+    "f(mvw, \"tab\\there\", 'x', 0x1F, 1_000, 1e+3, .5, 0o17, 0b101, 'ä', \"ü€\", 1i, '\\n', \"\\u00e4\")",
+    "f(mvw, `  leading and trailing  `, \" \", `\t`)",
+    "g(mvw)(`a\n\n\nb`)",
+]
+
+def c03_verbatim(ctx):
+    src = "package a\n\nimport \"os\"\n\nfunc f() {\n\tusage(os.Stdout)\n\tif usage(os.Stderr) {\n\t}\n}\n"
+    for k, e in enumerate(VERBATIM_PLUS):
+        patch = "@@\nvar mvw expression\n@@\n-usage(mvw)\n" + "".join("+" + l + "\n" for l in e.split("\n"))
+        want = src.replace("usage(os.Stdout)", e.replace("mvw", "os.Stdout")).replace("usage(os.Stderr)", e.replace("mvw", "os.Stderr"))
+        root = ctx.scratch("verb")
+        cl.write_tree(root, {"a.go": src, "p.patch": patch})
+        code, out, err = cl.gopatch(ctx.gopatch, root, ["-p", "p.patch", "--print-only", "a.go"])
+        got = out.decode("utf-8", "surrogateescape")
+        ctx.evaluations += 1
+        ctx.nontrivial.add("verbatim:" + e)
+        ctx.count("verbatim_table")
+        if code != 0 or got != want:
+            i = next((j for j in range(min(len(got), len(want))) if got[j] != want[j]), min(len(got), len(want)))
+            ctx.violation(f"a '+' token does not reach the output verbatim: output differs from the '+' pattern instantiated by hand at byte {i} "
+                          f"(got {got[i:i+24]!r}, want {want[i:i+24]!r}); exit {code} {err.decode('utf-8','replace')[:200]}",
+                          {"input": {"patches": [patch], "src": src}, "want": want, "got": got,
+                           "reproduce": "gopatch -p p.patch --print-only a.go"})
+        # the library API must return the same bytes
+        for o in run_api(ctx, [{"id": f"verb{k}", "patches": [patch], "src": src}], rep=0):
+            if o.get("out") != want:
+                ctx.violation("library API: a '+' token does not reach the output verbatim", {"input": {"patches": [patch], "src": src}, "want": want, "got": o.get("out")})
+
 @prop("C03")
 def c03(ctx):
     engine_family(ctx, "c03", {"status", "content"})
+    ctx.rule += (" Plus a table of '+' sides whose tokens must arrive byte for byte (blanks ending the lines of a raw string, '@@' '#' '...' "
+                 "inside literals, '+'/'-' starting a line of a raw string, every spelling of a literal): the expected file is written "
+                 "by hand, independent of the implementation's own parse of the patch.")
+    c03_verbatim(ctx)
 
 @prop("C04")
 def c04(ctx):
@@ -453,6 +579,13 @@ def make_scenarios(ctx, cases, n, rng, kinds):
                 spec = re.sub(r"^(impname|nm)\s+", rng.choice(["", "alias "]), spec)
                 files[f"imp{si}/only.go"] = f"package imponly\n\nimport {spec}\n\nfunc   unrelated( ) {{ zzzUnrelated( 1 ) }}\n"
                 note.append("imports-only")
+        if "guard-miss" in kinds:
+            # the code of the matching file under a package clause that only resembles the one the patch names
+            m = re.search(r"^[ -]package (\w+)", "\n".join(base["patches"]), re.M)
+            if m and isinstance(base["src"], str):
+                for gi, nm in enumerate([m.group(1) + "_test", m.group(1) + "2", "x" + m.group(1)]):
+                    files[f"gm{gi}/near.go"] = re.sub(r"^package \w+", "package " + nm, base["src"], count=1, flags=re.M)
+                note.append("guard-miss")
         if "generated" in kinds and rng.random() < 0.7:
             name, hdr, isgen = rng.choice(GENERATED_HEADERS)
             files["gen/" + name.replace("-", "_") + ".go"] = hdr + base["src"]
@@ -705,6 +838,13 @@ def c06(ctx):
     n = 40 if ctx.tier == "quick" else 800
     cases = gen_cases(ctx, "c05", 150 if ctx.tier == "quick" else 1500, ctx.seed)
     scen = make_scenarios(ctx, cases, n, rng, {"odd", "imports-only"})
+    # patches with package / import guards, and next to the matching file the same code under a package clause
+    # that only resembles the guard's
+    gcases = [c for c in gen_cases(ctx, "c10", 200 if ctx.tier == "quick" else 2000, ctx.seed + 5, golden=False)
+              if re.search(r"^[ -]package \w+", "\n".join(c.get("patches", [])), re.M)]
+    for k, sc in enumerate(make_scenarios(ctx, gcases, min(len(gcases), 15 if ctx.tier == "quick" else 300), rng, {"imports-only", "guard-miss"}) if gcases else []):
+        sc.id = f"g{k}"
+        scen.append(sc)
     decisions.update(model_decisions(ctx, scen))
     run_scenarios(ctx, scen, [[], ["print"], ["diff"], ["print", "si"], ["sg"]], {"unmatched", "stdout", "exit"}, post)
     triples = []
@@ -969,6 +1109,24 @@ FILE_DECORATIONS = [
     ("import-empty-group", lambda s: _after_package(s, "import ()\n")),
 ]
 
+VALID_REWRITES = [
+    ("@@\nvar x expression\n@@\n-foo(x)\n+bar(x)\n", "package a\n\nfunc f() {\n\tz := foo(2)\n\t_ = z\n}\n"),
+    ("@@\nvar x expression\n@@\n-foo(x)\n+bar(x, `multi\n+line`)\n", "package a\n\nfunc f() {\n\tif foo(1) == y {\n\t}\n}\n"),
+]
+_LONG = "\nconst big = \"" + "x" * 70000 + "\"\n\nfunc long() {\n\tuse(\"" + "y" * 66000 + "\")\n}\n"
+BYTE_DECORATIONS = [
+    ("crlf", lambda s: s.replace("\n", "\r\n")),
+    ("long-line", lambda s: s + _LONG),
+    ("crlf-long-line", lambda s: (s + _LONG).replace("\n", "\r\n")),
+    ("long-line-in-first-block", lambda s: _after_package(s, "func long() {\n\tuse(\"" + "y" * 66000 + "\")\n\tmore()\n}\n\n")),
+    ("crlf-long-line-in-first-block", lambda s: _after_package(s, "func long() {\n\tuse(\"" + "y" * 66000 + "\")\n\tmore()\n}\n\n").replace("\n", "\r\n")),
+    ("bom", lambda s: "\ufeff" + s),
+    ("no-final-newline", lambda s: s.rstrip("\n")),
+    ("cr-only-in-raw-string", lambda s: s + "\nvar raw = `a\r\nb`\n"),
+    ("nul-in-string", lambda s: s + "\nvar z = \"a\\x00b\"\n"),
+    ("many-lines", lambda s: s + "".join(f"\nfunc gen{i}() {{ use({i}) }}\n" for i in range(3000))),
+]
+
 @prop("C07")
 def c07(ctx):
     def post(ctx, sc, opts, infos, pred, obs, work):
@@ -1004,6 +1162,12 @@ def c07(ctx):
     for k, (patch, src) in enumerate(MISFIT[: (3 if ctx.tier == "quick" else len(MISFIT))]):
         for fname, deco in FILE_DECORATIONS:
             scen.append(Scenario(f"misfit{k}-{fname}", [patch], {"m.go": deco(src), "other.go": "package a\n\nfunc g() { foo(7) }\n"}, "misfit in a file with " + fname))
+    # rewrites that DO fit, in files whose bytes need care after the rewrite was validated (line endings, very long
+    # lines, byte order mark, no final newline): whatever is emitted must still parse
+    for k, (vp, vs) in enumerate(VALID_REWRITES):
+        for fname, deco in BYTE_DECORATIONS:
+            scen.append(Scenario(f"valid{k}-{fname}", [vp], {"m.go": deco(vs), "other.go": "package a\n\nfunc g() { foo(7) }\n"},
+                                 "valid rewrite in a file with " + fname))
     optsets = [[], ["si"], ["print"], ["print", "si"], ["diff"], ["diff", "si"]]
     run_scenarios(ctx, scen, optsets, {"write", "stdout", "exit"}, post)
     # a rewrite that does not parse must fail with and without import processing alike
@@ -1025,7 +1189,8 @@ def c07(ctx):
     # library API
     api_parse_check(ctx, cases[: (100 if ctx.tier == "quick" else 1500)] +
                     [{"id": f"misfit{k}", "patches": [p], "src": s} for k, (p, s) in enumerate(MISFIT)] +
-                    [{"id": f"misfit{k}-{fn}", "patches": [p], "src": deco(s)} for k, (p, s) in enumerate(MISFIT[:3]) for fn, deco in FILE_DECORATIONS])
+                    [{"id": f"misfit{k}-{fn}", "patches": [p], "src": deco(s)} for k, (p, s) in enumerate(MISFIT[:3]) for fn, deco in FILE_DECORATIONS] +
+                    [{"id": f"valid{k}-{fn}", "patches": [p], "src": deco(s)} for k, (p, s) in enumerate(VALID_REWRITES) for fn, deco in BYTE_DECORATIONS])
 
 def run_scenarios(ctx, scen, optsets, categories, post=None):
     def one(sc):
@@ -2050,6 +2215,25 @@ RICH = ["-func Keys[S ~[]E, E any](s S, f func(E) bool) (out []E, err error) { r
         "-import ( \"fmt\"; x \"os\" )\n-foo(...)",
         "-package p\n-func (T) M(...) (..., error) { return ..., nil }"]
 
+def deep_cases():
+    pat = "@@\nvar x expression\n@@\n-foo(x)\n+bar(x)\n"
+    head = "package a\n\nfunc f() {\n\tfoo(1)\n}\n\n"
+    out = []
+    for depth in (24, 64):
+        out.append((pat, head + "var v = " + "id(" * depth + "1" + ")" * depth + "\n"))
+        out.append((pat, head + "func g() {\n" + "".join("\t" * (i + 1) + "if c {\n" for i in range(depth)) + "".join("\t" * (depth - i) + "}\n" for i in range(depth)) + "}\n"))
+        out.append((pat, head + "var v = " + "(" * depth + "1" + ")" * depth + "\n"))
+        out.append((pat, head + "var v = " + "[]any{" * depth + "}" * depth + "\n"))
+        out.append((pat, head + "var v = " + "func() { _ = " * depth + "1" + " }" * depth + "\n"))
+        out.append((pat, head + "type T " + "struct{ a " * depth + "int" + " }" * depth + "\n"))
+        out.append((pat, head + "var v = " + "*" * depth + "p\n"))
+    out.append((pat, head + "var v = " + " + ".join(["a"] * 3000) + "\n"))
+    out.append((pat, head + "func g() {\n" + "\tuse(1)\n" * 5000 + "}\n"))
+    out.append((pat, head + "var v = f(" + ", ".join(str(i) for i in range(5000)) + ")\n"))
+    out.append(("@@\n@@\n-foo(...)\n+bar(...)\n", "package a\n\nfunc f() {\n\tfoo(" + ", ".join("g(" + str(i) + ")" for i in range(2000)) + ")\n}\n"))
+    out.append(("@@\nvar x expression\n@@\n x\n ...\n-foo(x)\n+bar(x)\n", "package a\n\nfunc f() {\n" + "\tuse(1)\n" * 400 + "\tfoo(1)\n}\n"))
+    return out
+
 def mutate_bytes(rng, s):
     b = bytearray(s.encode())
     for _ in range(rng.randint(1, 3)):
@@ -2086,6 +2270,9 @@ def c08(ctx):
     for k, t in enumerate(RICH):
         for cut in range(2, len(t) + 1):
             cases.append({"id": f"rich{k}_{cut}", "patches": ["@@\n@@\n" + t[:cut] + "\n"], "src": "package a\n\nfunc f() { foo(1) }\n"})
+    # small files that are deep or long in one dimension: anything super-linear in the nesting depth shows as a hang
+    for k, (dp, ds) in enumerate(deep_cases()):
+        cases.append({"id": f"deep{k}", "patches": [dp], "src": ds})
     for i, c in enumerate(base):
         cases.append({"id": f"gen{i}", "patches": c["patches"], "src": c["src"]})
     nb = 40 if ctx.tier == "quick" else 1500
@@ -2141,7 +2328,7 @@ def c08(ctx):
             ctx.violation("panic: " + o["panic"][:300], {"input": {"patches": c["patches"], "src": c["src"]},
                                                          "reproduce": "patch.Parse(\"p.patch\", patch) then Apply(\"a.go\", src)"})
     # CLI sample under timeout
-    sample = [c for c in cases if c["id"].startswith(("trunc", "ill"))] + rng.sample(cases, min(len(cases), 40 if ctx.tier == "quick" else 600))
+    sample = [c for c in cases if c["id"].startswith(("trunc", "ill", "deep"))] + rng.sample(cases, min(len(cases), 40 if ctx.tier == "quick" else 600))
     def cli_one(c):
         root = ctx.scratch("c08cli")
         with open(os.path.join(root, "p.patch"), "wb") as f:
@@ -2510,10 +2697,11 @@ def c09(ctx):
     todo.append(({"id": "f16", "chain": ["@@\nvar f identifier\n@@\n func f(...) {\n-  ...\n }\n", "@@\nvar x expression\n@@\n-x == nil\n+nil == x\n"],
                   "src": "package a\n\nfunc g() bool { return x == nil }\n\nfunc f() {\n\ta(nil, // c\n\t)\n}\n"}, "flags"))
     # witnesses of repaired defects
-    cpath = os.path.join(VERIF, "corpus", "C09", "chains.json")
-    if os.path.exists(cpath):
-        for w in json.load(open(cpath)):
-            todo.append(({"id": w["id"], "chain": w["chain"], "src": w["src"]}, w.get("how", "flags")))
+    for cname in ("chains.json", "seeded_chains.json"):
+        cpath = os.path.join(VERIF, "corpus", "C09", cname)
+        if os.path.exists(cpath):
+            for w in json.load(open(cpath)):
+                todo.append(({"id": w["id"], "chain": w["chain"], "src": w["src"]}, w.get("how", "flags")))
     # a chain with a failing step
     todo.append(({"id": "failstep", "chain": ["@@\nvar x expression\n@@\n-foo(x)\n+bar(x)\n", "@@\nvar x expression\n@@\n-bar(x)\n+baz.x\n"],
                   "src": "package a\n\nfunc f() {\n\tfoo(g(1))\n}\n"}, "flags"))
